@@ -118,6 +118,15 @@ func refSelect(c c12Case, param string, present bool) []string {
 	return nil
 }
 
+// c12TemplateFor: half of the cases (decided by the case itself, so that a replay sees the same) run with an
+// .rdp template configured (Client.Defaults), the way the downloads start from a file in that deployment.
+func c12TemplateFor(c c12Case) string {
+	if (len(c.User)+len(c.Param)+len(c.Mode))%2 == 1 {
+		return c09TemplateFile()
+	}
+	return ""
+}
+
 func c12Run(c c12Case, rep *Report) (viol, detail string) {
 	vclock.Reset()
 	vrand.Choice = c.Pick
@@ -133,7 +142,7 @@ func c12Run(c c12Case, rep *Report) (viol, detail string) {
 		}
 	}()
 	app := NewWebApp(WebCfg{Store: "cookie", HostSelection: c.Mode, Hosts: append([]string{}, c.Hosts...), QueryIssuer: "issuer-1", SplitUser: c.Split, UserTemplate: c.Template,
-		EnableUserTok: strings.Contains(c.Template, "{{ token }}"), VerifyClientIP: true})
+		EnableUserTok: strings.Contains(c.Template, "{{ token }}"), VerifyClientIP: true, TemplateFile: c12TemplateFor(c)})
 	rep.add("executions", 1)
 	b := NewBrowser(c.Addr.Peer)
 	if len(c.Addr.XFF) > 0 {
